@@ -104,7 +104,43 @@ def near_threshold_cases():
             yield {k: v for k, v in c.items() if k != "margin"}
 
 
+def merge_placements():
+    """Committed list (mc/data/merge_placements.json, found by a search of the thorough lattices): two-nucleotide placements in which two donor atoms of one
+    base touch oxygens of the other residue's phosphate / ribose and nothing competes for these atoms, so that the contacts merge into class 4 or 8."""
+    import json
+
+    with open(os.path.join(os.path.dirname(os.path.dirname(os.path.abspath(__file__))), "data", "merge_placements.json")) as f:
+        return [{k: v for k, v in c.items() if k != "merged"} for c in json.load(f)]
+
+
+def composed_cases(tier):
+    """Structures made of several independent two-nucleotide placements, 60 A apart, each in a chain of its own (A, B, C): every ordered pair of the merge
+    placements, and every merge placement between two plain lattice placements - listed in chain order and in reverse chain order. What holds for a
+    placement alone must hold for it as the second or third group of a larger structure (residue pairs after the first in every per-pair table)."""
+    mp = merge_placements()
+    plain = [c for k, c in enumerate(g1_pairs("quick")) if k % 997 == 0][:6]
+    k = 0
+    for a in mp:
+        for b in mp:
+            k += 1
+            yield dict(g=5, parts=[a, b], reverse=bool(k % 2))
+    if tier != "quick" or True:
+        for i, m in enumerate(mp):
+            yield dict(g=5, parts=[plain[i % len(plain)], m, plain[(i + 1) % len(plain)]], reverse=bool(i % 2))
+
+
 def structure_of(case):
+    if case["g"] == 5:
+        specs = []
+        for k, part in enumerate(case["parts"]):
+            off = np.array([0.0, 60.0 * k, 25.0 * k])
+            for (_, num, ic, rn, letter, atoms) in specs_of(dict(part, idmode=0, namemode=0, thinmode=0)):
+                specs.append(("ABCDEF"[k], num, ic, rn, letter, [(nm, np.asarray(xyz, float) + off) for nm, xyz in atoms]))
+        if case.get("reverse"):
+            # chains listed in reverse order (file order is not identity order)
+            chains = sorted({sp[0] for sp in specs}, reverse=True)
+            specs = [sp for ch in chains for sp in specs if sp[0] == ch]
+        return ac.build_structure(specs)
     if case["g"] == 1:
         (n1, i1), (n2, i2) = IDMODES[case.get("idmode", 0)]
         specs = [("A", n1, i1, _rn(case["l1"], case, 0), case["l1"], _thin(enum3d.origin(case["l1"]), case, 0)),
